@@ -103,7 +103,11 @@ def portfolio(cmd, solvers, timeout, mem_gb):
     procs = []
     for sv in solvers:
         of = tempfile.TemporaryFile(mode='w+'); ef = tempfile.TemporaryFile(mode='w+')
-        p = subprocess.Popen(cmd + ['--sat-solver', sv], stdout=of, stderr=ef, preexec_fn=pre)
+        # 'minisat2+ra' = minisat2 with --refine-arrays: array-theory constraints are added on demand instead of
+        # for every pair of indices up front (same verdicts, far less memory when the input buffer is read at
+        # many symbolic offsets; the option is ignored by the cadical back end, hence minisat2 only)
+        sflags = ['--sat-solver', 'minisat2', '--refine-arrays'] if sv == 'minisat2+ra' else ['--sat-solver', sv]
+        p = subprocess.Popen(cmd + sflags, stdout=of, stderr=ef, preexec_fn=pre)
         procs.append((sv, p, of, ef))
     winner = None
     while winner is None and time.time() - t0 < timeout:
@@ -245,6 +249,8 @@ def run_job(job, workdir, keep=False, extra_defs=(), trace_property=None):
         cmd += ['--property', trace_property, '--trace']
     cmd += ['--json-ui']
     solvers = list(job.solvers) if not trace_property else list(job.solvers)[:1]
+    if os.environ.get('VERIF_SOLVERS'):          # experiments only: override the portfolio
+        solvers = os.environ['VERIF_SOLVERS'].split(',')
     rc, out, err, s, won = portfolio(cmd, solvers, timeout=job.timeout, mem_gb=job.mem_gb)
     r.cmds.append(' '.join(cmd) + ' --sat-solver {' + ','.join(solvers) + '}  [first to finish: %s]' % won)
     r.seconds['cbmc'] = round(s, 2); r.backend = 'cbmc 6.11 SAT/' + str(won)
